@@ -81,7 +81,11 @@ StacksTags == {s \in StacksAll : s.name \in {"TT", "Text", "ByTest", "E2O(Py27)"
                    "E2S", "Tagger+a(E2S)", "Multi(E2S,Ext)", "TFR(E2S)", "E2SX", "Tagger+a(E2SX)"}}
 
 \* every stack with a TestByTestResult at the bottom
-StacksByTest == {s \in StacksAll : \E i \in DOMAIN s.nodes : s.nodes[i].k = "ByTest"}
+\* Taggers that only remove, only add, or do nothing (the only-add ones over Ext/ByTest are in StTagger)
+StTaggerX == {S("Tagger-a(ByTest)", Tagger({}, A, L("ByTest"))), S("Tagger0(ByTest)", Tagger({}, {}, L("ByTest"))),
+              S("Tagger0(Ext)", Tagger({}, {}, L("Ext"))), S("Tagger+b(Ext)", Tagger(Bt, {}, L("Ext")))}
+StacksByTest == {s \in StacksAll : \E i \in DOMAIN s.nodes : s.nodes[i].k = "ByTest"} \cup StTaggerX
+StacksText == {s \in StacksAll : \E i \in DOMAIN s.nodes : s.nodes[i].k = "Text"}
 StText == {s \in StacksAll : s.name = "Text"}
 StacksSetFF == {s \in StacksAll : CanSetFFKind(s.nodes[1].k)}
 StacksTimes == {s \in StacksAll : \E i \in DOMAIN s.nodes : s.nodes[i].k \in {"ByTest", "TFR", "Ext", "E2S", "Tw"}}
